@@ -38,6 +38,11 @@ add('C06', 'exploration',
     'Reference model is the library\'s own batch constructor run solo on private copies; the convention table is not needed; calendar frozen; granularity one public call.',
     'deterministic simulation: seeded scheduler + sensor-bus fault injection, refinement against the batch constructor, digest replay', 'DESIGN.md section 2 C06')
 
+add('C13', 'fault_enumeration',
+    'Dropout faults (all-zero accelerometer/magnetometer/gyroscope rows) are enumerated over a grid of sensor subsets x start positions x lengths for every recursive filter x architecture (streaming update method and batch constructor) on a motion history with a kick, plus seeded random patterns with a second fault kind in the window. Safety (finite real unit quaternion or ValueError, for that sample and every later one) is checked at every step; recovery is checked against the twin run of the same filter on the same history without the dropouts.',
+    'Recovery tolerances/tails are pinned constants per filter and gain set (calibrated on the repaired tree) combined with a relative criterion (half of the peak lag shed); Fourati gets the safety oracle only; LinAlgError counts as breakdown, not refusal; filters already invalid without dropouts are left to C03.',
+    'deterministic simulation: enumerated + seeded dropout injection on the sensor bus, twin-run recovery oracle, replay files', 'DESIGN.md section 2 C13')
+
 def build():
     m = {
         'version': 1,
